@@ -297,6 +297,23 @@ class Walk:
             for i, x in enumerate(src):
                 self.write((dlv[0], dlv[1], dlv[2] + (("i", i),)), x)
             return ("unit",)
+        if name in ("iter", "into_iter") and args and isinstance(args[0], tuple) and args[0] and args[0][0] == "ref":
+            # a slice iterator over a named byte list: its position is part of the walk's state
+            try:
+                lst, lv = self.deref_list(args[0])
+            except Giveup:
+                lst = None
+            if lst is not None:
+                return ("agg", [("ref", lv), ("int", 0)], "SliceIter")
+        if decl == "core::iter::traits::iterator::Iterator::next" and args and isinstance(args[0], tuple) and args[0] and args[0][0] == "ref":
+            itv = self.read(args[0][1])
+            if isinstance(itv, tuple) and itv and itv[0] == "agg" and itv[2] == "SliceIter":
+                lst, lv = self.deref_list(itv[1][0])
+                pos = itv[1][1][1]
+                if pos >= len(lst):
+                    return ("agg", [], "None")
+                itv[1][1] = ("int", pos + 1)
+                return ("agg", [("ref", (lv[0], lv[1], lv[2] + (("i", pos),)))], "Some")
         if name == "len" and ("slice" in decl or "array" in decl):
             lst, _ = self.deref_list(args[0])
             return ("int", len(lst))
